@@ -24,7 +24,9 @@ TrCall == IsEv("call") /\ E.c \in CallSet /\ OCall(E.c, E.kind, E.r) /\ UNCHANGE
 TrWire == IsEv("wire") /\ E.c \in CallSet /\ OWire(E.c) /\ UNCHANGED nenv
 TrCancel == IsEv("cancel") /\ E.c \in CallSet /\ OCancel(E.c) /\ UNCHANGED nenv
 TrSend == IsEv("send") /\ OSend(E.st, E.part) /\ UNCHANGED nenv
-TrRest == IsEv("rest") /\ Partial /\ ORest /\ UNCHANGED nenv
+(* (an error reply that was handed to its requester counts as processed when the requester closes it, *)
+(* which may be before the end of the stanza has arrived: the remainder then concerns nobody)         *)
+TrRest == IsEv("rest") /\ ORest /\ UNCHANGED nenv
 TrHandled == IsEv("handled") /\ OHandled([ty |-> E.ty, room |-> E.room, nick |-> E.nick, call |-> E.call]) /\ UNCHANGED nenv
 TrRet == IsEv("ret") /\ E.c \in CallSet /\ ORet(E.c, E.o, E.cond) /\ UNCHANGED nenv
 TrObs == IsEv("obs") /\ OObs(E.r, E.j, E.me, E.addr) /\ UNCHANGED nenv
